@@ -177,8 +177,8 @@ def factsOk : Bool :=
   aliasViolations.isEmpty &&
   -- … and where such a value leaves that code, the callee is a read-only standard-library function or one of the contracts
   globalArgLeaves.all leafOk &&
-  -- … and appended to only at two known sites (cap == len is checked at run time through the hook)
-  appendBases.all (fun s => ["css.urlBytes in cssMinifier.minifyTokens", "minify.dataBytes in DataURI"].contains s)
+  -- … and only two of them are ever the base of an append (their cap == len is checked at run time through the hook)
+  appendBases.all (fun s => ["css.urlBytes", "minify.dataBytes"].contains s)
 
 /-- the source of /repo, as of this run, has the shape the model assumes -/
 theorem facts_ok : factsOk = true := by decide +kernel
